@@ -43,7 +43,9 @@ def jobs_for(ctx):
     for s in ["n2 a1 w f", "n2 a2 w f"]:
         dfs(s, 2, "--free-switch", shards=4)
     if not q:
-        dfs("n2 a2 w f", 3, "--free-switch", shards=16)
+        # preemption bound 3 (context switches at blocking points free) on the 2-worker pools
+        for s in ["n2 a1 w f", "n2 a2 w f", "n2 a1 w a1 w f", "n2 a1 w l1 a1 w f"]:
+            dfs(s, 3, "--free-switch", shards=16)
     # repeated rounds, limit changes between rounds (always on an idle pool), strict_async, spurious wake-ups
     multi = ["n2 a1 w l1 a1 w f", "n3 a2 w l1 a1 w l2 a2 w f", "n1 a1 w l3 a2 w f", "n2 s a1 w l1 a1 w f",
              "n1 s a2 w f", "n2 a2 w a1 w a0 w f", "n2 f", "n2 l1 f", "n4 a0 w l2 a2 w l4 a3 w f",
@@ -238,7 +240,8 @@ def run(ctx):
             "harness/vf_sched.c: its model of mutex/condvar/join semantics IS the pthread semantics assumed (mutual exclusion, cond_wait atomically releases, signal wakes one waiter if any, spurious wake-ups allowed); sequentially consistent memory (one thread runs at a time)",
             "harness/c06_pool.c assertions (execution counters, finished flags, unfinished-thread count)",
             "modelled, not verified: granularity (code between two pthread calls atomic, except after unlock and the read of thread->alive); a single client thread calls the pool API; tasks do not call the API (nested assign is explored on the real code with the harness predicate only); malloc never fails",
-            "small scope: pools of 1..4 workers, <= 4 tasks per round, <= 3 rounds; schedules within the bound only; deadlock freedom of the disciplined model is explored, not proved (C06_pool_no_stuck_state_partial)",
+            "small scope of the tie: pools of 1..4 workers, <= 4 tasks per round, <= 3 rounds; schedules within the bound only",
+            "termination of wait (C06_pool_wait_terminates) assumes progress (an enabled non-spurious step is eventually taken) and finitely many spurious wake-ups; no fairness between threads is needed",
         ],
     }
     assumptions = ["limit lowered / pool freed only on a quiescent pool (C06_pool_limit_when_idle_ok); otherwise known finding " + SIG_KNOWN,
